@@ -33,6 +33,7 @@ EXTRA = [
     ("zero_prior", "S: A | B | C;\nterminals\nA: 'a' {0};\nB: /a+/ {0};\nC: /a*b/ {1};"),
     ("rr_empty", "S: A 'x' | B 'x'; A: EMPTY; B: EMPTY;"),
     ("rr_mixed", "S: A 'x' | B 'x' | C 'x'; A: EMPTY; B: 'b' | EMPTY; C: 'b';"),
+    ("long_string_prior", "S: A | B | A B;\nterminals\nA: 'a' {11};\nB: '" + "b" * 150 + "' {10};"),
     ("layout_user", "S: 'a' S | 'a';\nLAYOUT: LayoutItem | LAYOUT LayoutItem | EMPTY;\nLayoutItem: WS | Comment;\n"
                     "terminals\nWS: /\\s+/;\nComment: /\\/\\/.*/;"),
 ]
@@ -158,6 +159,8 @@ def gen_jobs(ctx, quick):
         t = term_meta_grammar(rng)
         if t:
             base.append(("termmeta", "tm%d" % i, t, None))
+    for i in range(8 if quick else 100):
+        base.append(("imports", "imp%d" % i, import_grammar(rng), None))
     jobs = []
     for fam, name, text, start in base:
         combos = [(a, b) for a in (False, True) for b in (False, True)]
@@ -220,7 +223,7 @@ def _worker(job):
     out = {"job": job, "gerr": None}
     try:
         with impl.time_limit(20):
-            g = Grammar.from_string(text)
+            g = _mk_grammar(text)
     except BaseException as e:  # noqa
         out["gerr"] = impl.exc_kind(e)
         return out
@@ -284,6 +287,41 @@ def _worker(job):
     out["impl_s"] = time.time() - t0
     out["expected"] = exp
     return out
+
+
+def _mk_grammar(text):
+    """Grammar from a text, or from files {"files": {name: text}, "root": name} written to a fresh
+    temporary directory (import-based grammars: symbol names differ from their fqn)"""
+    from parglare import Grammar
+    if isinstance(text, str):
+        return Grammar.from_string(text)
+    import shutil
+    import tempfile
+    d = tempfile.mkdtemp(prefix="tabcorr_")
+    try:
+        for name, t in text["files"].items():
+            with open(os.path.join(d, name), "w") as f:
+                f.write(t)
+        g = Grammar.from_file(os.path.join(d, text["root"]))
+        g.file_path = None
+        return g
+    finally:
+        shutil.rmtree(d, ignore_errors=True)
+
+
+def import_grammar(rng):
+    """terminals with the same unqualified name in two imported modules (fqn m1.W / m2.W)"""
+    r1, r2 = rng.sample([r"[a-z]+", r"[a-z0-9]+", r"\\w+", r"[a-c]+", r"[a-z]\\w*"], 2)
+    nm = rng.choice(["W", "WORD", "Tok", "id"])
+    rules = ["S: A m1.%s | A m2.%s | m1.X | m2.Y" % (nm, nm), "A: 'x'"]
+    if rng.random() < 0.5:
+        rules[0] += " | A B m2.%s m1.%s" % (nm, nm)
+        rules.append("B: 'x' | EMPTY")
+    md = lambda: rng.choice(["", " {%d}" % rng.choice([5, 10, 15]), " {prefer}"])
+    files = {"root.pg": "import 'm1.pg' as m1;\nimport 'm2.pg' as m2;\n" + ";\n".join(rules) + ";\n",
+             "m1.pg": "X: 'p' %s;\nterminals\n%s: /%s/%s;\n" % (nm, nm, r1, md()),
+             "m2.pg": "Y: 'q' %s;\nterminals\n%s: /%s/%s;\n" % (nm, nm, r2, md())}
+    return {"files": files, "root": "root.pg"}
 
 
 def _gerr_nt(e, gi):
@@ -351,6 +389,13 @@ def run(ctx, skip_texts=()):
     for i, r in enumerate(results):
         if r["gerr"]:
             st["grammar_errors"] += 1
+            # every generated text is a valid grammar; Grammar.from_string parses it with a parser
+            # whose table create_table built from parglare's own grammar of the grammar language
+            if r["gerr"] != "Timeout":
+                ctx.violation("table_build_correspondence: a valid grammar text cannot be loaded (%s); the parser of "
+                              "the grammar language is itself built by create_table" % r["gerr"],
+                              {"correspondence": "table_build_correspondence", "grammar": r["job"][2],
+                               "error": r["gerr"]}, no_input=True, key="tabcorr-grammar-load")
             continue
         if r["expected"] == ["timeout"]:
             st["impl_timeouts"] += 1
@@ -400,7 +445,7 @@ def run(ctx, skip_texts=()):
                 samples.append({"grammar": text, "kind": kind, "states": r["n_states"], "table": exp[1]})
             continue
         st["disagree"] += 1
-        if text in skip_texts:
+        if isinstance(text, str) and text in skip_texts:
             continue
         d = diff(exp, got)
         ctx.violation("table_build_correspondence: create_table and its Gallina model disagree (%s)"
@@ -417,6 +462,73 @@ def run(ctx, skip_texts=()):
     st["crosscheck_vm_compute_cases"] = nx
     st["wall_s"] = round(time.time() - t0, 1)
     st["samples"] = samples
+    return st
+
+
+def run_seeds(ctx, seeds=(1, 7), n_jobs=160):
+    """The same correspondence with the impl running under other PYTHONHASHSEEDs (separate
+    interpreter processes): the model is a function of the ordered grammar, so a dependence of
+    create_table on set iteration order shows up here (called from harness/props/c16.py)."""
+    import pickle
+    import subprocess
+    t0 = time.time()
+    jobs = gen_jobs(ctx, True)
+    ctx.rng.shuffle(jobs)
+    jobs = jobs[:n_jobs]
+    st = {"seeds": list(seeds), "jobs": len(jobs), "compared": 0, "agree": 0, "disagree": 0, "failed_processes": 0}
+    per_seed = {}
+    import threading
+
+    def one(seed):
+        env = dict(os.environ)
+        env["PYTHONPATH"] = common.REPO
+        env["PYTHONHASHSEED"] = str(seed)
+        env["PARGLARE_VERIF"] = "1"
+        env["VERIF_JOBS"] = str(max(2, common.NPROC // max(1, len(seeds))))
+        try:
+            p = subprocess.run(["/venv/bin/python", os.path.join(common.VERIF, "harness", "run_worker.py"),
+                                "lib.tabcorr", "_worker"], input=pickle.dumps(jobs), stdout=subprocess.PIPE,
+                               stderr=subprocess.PIPE, env=env, timeout=900)
+            per_seed[seed] = pickle.loads(p.stdout)["results"] if p.returncode == 0 else None
+        except Exception:
+            per_seed[seed] = None
+
+    ths = [threading.Thread(target=one, args=(sd,)) for sd in seeds]
+    for th in ths:
+        th.start()
+    for th in ths:
+        th.join()
+    for seed in seeds:
+        if per_seed.get(seed) is None:
+            st["failed_processes"] += 1
+            ctx.violation("table_build_correspondence: worker process under PYTHONHASHSEED=%d failed" % seed,
+                          {"seed": seed}, no_input=True, key="tabcorr-seedproc")
+    ref = [r for r in per_seed.values() if r is not None]
+    if not ref:
+        return st
+    mcases = [(220, r["case"]) for r in ref[0] if not r["gerr"]]
+    outs = iter(common.model_run(mcases))
+    model = [None if r["gerr"] else canon(next(outs)) for r in ref[0]]
+    for seed, res in per_seed.items():
+        if res is None:
+            continue
+        for r, got in zip(res, model):
+            if r["gerr"] or r["expected"] == ["timeout"]:
+                continue
+            st["compared"] += 1
+            if r["expected"] == got:
+                st["agree"] += 1
+                continue
+            st["disagree"] += 1
+            fam, name, text, start, kind, ps, pse, lexdis = r["job"]
+            d = diff(r["expected"], got)
+            ctx.violation("table_build_correspondence under PYTHONHASHSEED=%d: create_table and its Gallina model "
+                          "disagree (%s)" % (seed, d.split(":")[0] if d else "?"),
+                          {"correspondence": "table_build_correspondence", "hash_seed": seed, "grammar": text,
+                           "table_kind": kind, "prefer_shifts": ps, "prefer_shifts_over_empty": pse,
+                           "lexical_disambiguation": lexdis, "start_rule": start, "difference": d},
+                          no_input=True, key="tabcorr-seed-" + re.sub(r"\d+", "N", (d.split(":")[0] if d else "?"))[:40])
+    st["wall_s"] = round(time.time() - t0, 1)
     return st
 
 
